@@ -18,7 +18,7 @@ HOOK_COMMITS = []
 
 PROPS = {
     "C01": dict(
-        modules=["Whawty.Props.C01", "Whawty.Props.Gen"],
+        modules=["Whawty.Props.C01", "Whawty.Props.GenFiles"],
         suites=[("hdrv", "c01")],
         level_text="Store operations are pure functions on a directory map following store.go / userhash.go branch by "
                    "branch; write-then-authenticate (verdict = digest equality with the last written password, via the "
@@ -38,7 +38,7 @@ PROPS = {
         assumptions=["no symlinks or special files inside the base directory"],
     ),
     "C02": dict(
-        modules=["Whawty.Props.C02", "Whawty.Props.Gen"],
+        modules=["Whawty.Props.C02", "Whawty.Props.GenFiles"],
         suites=[("hdrv", "c02"), ("overlay4", "v02")],
         level_text="auth_iff_record: for ANY bytes as the user's file, authentication succeeds iff the first line parses "
                    "(model of bufio.ReadString, SplitN, strconv.ParseInt/ParseUint, Go's non-strict URL base64) as a record "
@@ -56,7 +56,7 @@ PROPS = {
         assumptions=["file contents are those of regular files (FIFOs/devices would block open)"],
     ),
     "C16": dict(
-        modules=["Whawty.Props.C16", "Whawty.Props.Gen"],
+        modules=["Whawty.Props.C16", "Whawty.Props.GenGrammar", "Whawty.Props.GenFiles"],
         suites=[("hdrv", "c16"), ("overlay4", "v16cli"), ("overlay", "v11s")],
         level_text="check_exact characterises Dir.Check without reference to iteration order (proved from the fold over "
                    "readdir entries), check_perm_invariant gives order independence, init_only_on_empty and "
@@ -81,7 +81,7 @@ PROPS = {
                  "proceeds_only_if_valid_or_disabled) is decided by the run: the built binary on valid / invalid directories"],
     ),
     "C03": dict(
-        modules=["Whawty.Props.C03", "Whawty.Props.Gen"],
+        modules=["Whawty.Props.C03", "Whawty.Props.GenGrammar", "Whawty.Props.GenFiles"],
         suites=[("hdrv", "c03"), ("hdrv", "c03tr")],
         level_text="invalid_name_noop (every operation of the repaired code fails or is a no-op on a name outside the "
                    "grammar), valid names contain no path syntax, effects of every operation are confined to "
@@ -183,7 +183,7 @@ PROPS = {
         trusted=["the standard abstract persistence model", "strace output and the Go trace parser", T_GO],
     ),
     "C14": dict(
-        modules=["Whawty.Props.C14", "Whawty.Props.Gen"],
+        modules=["Whawty.Props.C14", "Whawty.Props.GenSalt", "Whawty.Props.GenFiles"],
         suites=[("hdrv", "c14")],
         level_text="add/update_written_record: the installed file is exactly the schema line for the default set, now, "
                    "salt and digest (plus the old auxiliary lines); it parses back to those fields (proved codec round "
@@ -239,7 +239,7 @@ PROPS = {
                  "memory exhaustion for huge cost/memory values is a run-time fact outside the model"],
     ),
     "C15": dict(
-        modules=["Whawty.Props.C15", "Whawty.Props.Gen"],
+        modules=["Whawty.Props.C15", "Whawty.Props.GenFiles"],
         suites=[("hdrv", "c15ro"), ("hdrv", "c15f"), ("hdrv", "c15i"), ("hdrv", "c01")],
         level_text="Frame theorems (update preserves auxiliary data and every other entry byte for byte, set-admin moves "
                    "the node), protocol-level fault analysis of writeHashStr (every stop before the rename + deferred "
@@ -275,7 +275,7 @@ PROPS = {
         partial=["listener combinations (TLS, socket activation) of the running binary are not enumerated"],
     ),
     "C05": dict(
-        modules=["Whawty.Props.C05", "Whawty.Props.Gen"],
+        modules=["Whawty.Props.C05", "Whawty.Props.GenCodec"],
         suites=[("hdrv+pam", "c05")],
         level_text="handleConnection is modelled as decode (the C13 scanner model) -> callback at most once -> one "
                    "clipped reply -> close; callback-at-most-once with exactly the decoded fields, positive-only-if, "
@@ -314,7 +314,7 @@ PROPS = {
                  "therefore takes ~70 s), not proved"],
     ),
     "C20": dict(
-        modules=["Whawty.Props.C20", "Whawty.Props.Gen"],
+        modules=["Whawty.Props.C20", "Whawty.Props.GenCodec"],
         suites=[("hdrv+pam", "c20")],
         level_text="Hand model of _whawty_get_password / _whawty_send_request / _whawty_read_data / "
                    "_whawty_recv_response / _whawty_check_password over a script of what select()/read() observe; "
@@ -410,7 +410,7 @@ PROPS = {
         partial=["'on an otherwise idle agent the rewrite does happen' is observed with a 400 ms wait (scheduling), not proved"],
     ),
     "C13": dict(
-        modules=["Whawty.Props.C13", "Whawty.Props.Gen"],
+        modules=["Whawty.Props.C13", "Whawty.Props.GenCodec"],
         level_text="Wire format, round trip, over-limit refusal, re-encode = consumed prefix, fragment "
                    "independence of the bufio.Scanner loop and PAM/Go encoder agreement are Lean theorems for all "
                    "byte strings and all fragmentations (induction over the scanner loop); the model is compared "
